@@ -7,6 +7,9 @@
 * correspondence with M-Setters (lean/DefconModel/Setters.lean): per operation the model is started from the
   abstraction of the target object's pre-state (read through the public getters) and must predict exactly the
   deliveries `(name, subject, old, new, getter-now)` of the operation's own notifications and the post-state;
+* correspondence with M-Follow (lean/DefconModel/Follow.lean): for operations on a layer's glyphs and components the
+  model is started from the abstraction of the layer (names -> glyph objects, outlines, components and what they
+  observe) and must predict which components post Component.BaseGlyphDataChanged and what they observe afterwards;
 * `extract`: lean/DefconModel/Gen/NotifNames.lean (documented / posted names per class, statement-order
   skeletons of every method that posts, holds or releases) regenerated from the AST on every run.
 """
@@ -28,43 +31,62 @@ SHRINKABLE = True
 RULE = ("histories of 4-50 operations on a generated font (built in memory / loaded lazily from a generated UFO / just "
         "saved): every attribute setter and container mutator of Glyph, Anchor, Guideline, Image, Component, Contour, "
         "Layer, LayerSet, Font, Info, Features, Lib/Kerning/Groups and ImageSet with generated values (>= 20 % "
-        "same-value repeats), scripted scenarios at known positions (margins with and without vertical origin, undo of "
-        "a delete, rejected insert of a duplicate identifier, rename away and back, delete then re-create under the old name, clear-all, layer default/order/"
+        "same-value repeats); objects handed to insertX / appendX are built by the caller (free-standing or via "
+        "instantiateX) or by the pen, contours carry point identifiers (about a third; some twice inside one contour, "
+        "some equal to the contour's own, some known to the glyph); glyphs are renamed also ONTO names that are taken; "
+        "scripted scenarios at known positions (margins with and without vertical origin, undo of "
+        "a delete, rejected insert of every kind of identifier clash, rename away and back, delete then re-create under the old name, clear-all, layer default/order/"
         "rename/delete, user hold brackets, edit-read-save, image and layer colour, contour reversal, dict items, "
-        "image set, font guidelines) plus one fixed history that visits every recorded call site; every delivery is "
-        "recorded by an early and a late observer that evaluate the getter inside the callback; non-trivial = at "
+        "image set, font guidelines, a component whose base glyph's name changes hands: replaced by newGlyph / insertGlyph / "
+        "another glyph renamed onto it, deleted and re-created, renamed away and back - then edited) plus one fixed "
+        "history that visits every recorded call site; every delivery is "
+        "recorded by an early and a late observer that evaluate the getter inside the callback; relayed notifications "
+        "(Component.BaseGlyphDataChanged, Layer.GlyphNameChanged, Layer.GlyphUnicodesChanged) are demanded whenever the "
+        "public API shows their trigger; non-trivial = at "
         "least one payload delivery AND one will delivery; distinct = distinct (font, history)")
 ASSUMPTIONS = [
     "under USER holds only the old value is judged against the values the getter had inside the bracket; 'value when "
-    "the observer is called' and will/did ordering are not claimed there (deferred delivery is the point of a hold)",
+    "the observer is called', will/did ordering and relayed notifications are not claimed there (deferred delivery is "
+    "the point of a hold)",
     "Font.GlyphOrderChanged carries the stored lib value (None when absent) while font.glyphOrder normalises absent "
     "to []: payload and getter are compared modulo None == []",
     "values handed to setters are in the documented form (lists for unicodes / orders, integers for metrics, "
     "4-tuples or UFO strings for colours); floats are compared with a 1e-9 tolerance",
-    "renaming a glyph or layer onto an existing name, deleting the default layer, and cyclic component references "
-    "are outside the domain (the adaptor skips them)",
+    "renaming a LAYER onto an existing name, deleting the default layer, and cyclic component references "
+    "are outside the domain (the adaptor skips them); renaming a GLYPH onto an existing name is in the domain (the "
+    "glyph that was filed under the name is replaced, as with newGlyph / insertGlyph over a name)",
     "a composite (glyph.anchors = ..., font.guidelines = ..., copyDataFromGlyph, Layer.insertGlyph, decompose*) "
     "stopped half way by a rejected element is not judged; should such a call leave the hold it imposed on itself "
     "unreleased (the assignments and insertGlyph release it in a finally clause since 67bac07), the harness "
     "releases it after the failed call",
     "python asserts enabled (no -O)",
-    "margin setters are judged from fresh component-bounds caches (the harness calls destroyAllRepresentations() on "
-    "the glyph's components first): a base glyph REPLACED by newGlyph/insertGlyph over its name leaves the "
-    "components' cached bounds stale (they observe the old, detached glyph object) - C03/C11's subject, not a "
-    "payload defect",
     "notifications sent while objects are CREATED by the operation (lazy loading, instantiateAnchor(dict), "
     "copyDataFromGlyph's new objects) have no 'before': only their new value is judged",
+    "sentence 3 for Component.BaseGlyphDataChanged reads the class docstring's bare list as 'posted when the data of "
+    "the base glyph changes': the trigger is judged on the public API only (the outline - points of the contours, "
+    "components - of layer[component.baseGlyph], or its absence, differs after the operation from before it; a "
+    "replacement by a glyph with an EQUAL outline demands nothing), for components that stay attached with the same "
+    "baseGlyph; that the holder glyph then posts Glyph.ComponentsChanged is not demanded (no sentence says so)",
+    "a pen drawing that fails half way (a point identifier that is taken) leaves the identifiers it registered behind: "
+    "C10's subject, not judged here",
 ]
 TRUSTED = [
     "harness/c08_world.py: PAYLOAD / WILL tables say which public getter each notification talks about",
     "harness/c08_model.py: abstraction of an object's state into the model's store (through getters; peeks at "
-    "_image, _scheduledForDeletion, _shallowLoadedContours avoid triggering lazy creation) and value tokens "
-    "(equal token <=> Python ==)",
+    "_image, _scheduledForDeletion, _shallowLoadedContours, layer._glyphs avoid triggering lazy creation / loading) and "
+    "value tokens (equal token <=> Python ==); for M-Follow: what a component observes is read through the public "
+    "hasObserver of its layer and of the glyphs filed in it",
     "harness/extract_notif.py: AST extractor (fails closed on unrecognised statement kinds, notification-name "
     "expressions, payload shapes, decorators); which calls count as state changes is a syntactic rule "
     "(receiver rooted at self/super, observation wiring excluded)",
     "facts the model takes as arguments because they live outside the object's store: duplicate-identifier / "
-    "ownership rejections, fontTools' fontinfo validation, zero-area contours, image digests",
+    "ownership rejections (computed by the harness from the incoming object's own identifiers - twice the same one "
+    "included - and the container's public `identifiers`), fontTools' fontinfo validation, zero-area contours, image "
+    "digests",
+    "M-Follow is compared operation by operation from the implementation's own pre-state for: Glyph.name=, "
+    "Layer.newGlyph / insertGlyph / __delitem__, insertComponent / removeComponent, Component.baseGlyph= and every "
+    "other operation after which exactly one glyph's outline differs; operations that also attach or detach other "
+    "components (a holder replaced, clear, decompose*, copyDataFromGlyph with components) get no M-Follow line",
 ]
 
 CLASS_OF = {"font": "Font", "info": "Info", "features": "Features", "lib": "Lib", "kerning": "Kerning",
@@ -1083,12 +1105,8 @@ def run_world(case, per_op=None):
                     list(g)
                     if op[0] == "set" and op[1][0] == "glyph" and op[2].endswith("Margin"):
                         margins_of = g
-                        # margins are computed from cached component bounds.  defcon evicts them when the base glyph
-                        # is edited, renamed, deleted or added (32fccc7) but NOT when it is REPLACED by newGlyph /
-                        # insertGlyph over an existing name (the component keeps observing the old, detached glyph
-                        # object: F16's territory, C03/C11) - start from fresh caches
-                        for c in g.components:
-                            c.destroyAllRepresentations()
+                        # margins are computed from cached component bounds, as they are: defcon evicts them when the
+                        # base glyph is edited, renamed, deleted, added (32fccc7) or replaced under its name (5fa9b2d)
 
                 if op[0] == "call" and op[2] in ("copyDataFromGlyph", "insertGlyph"):
                     list(w.glyph_at(op[3], op[4]))
@@ -1102,14 +1120,22 @@ def run_world(case, per_op=None):
 
             def mid(details, op=op, box=box):
                 box["ctx"] = ad.before(op, details)
+                box["fctx"] = ad.follow_before(op, details)
             status, details = w.do(op, mid)
             events = list(w.rec.events)
             late = list(w.late.events)
             line, mout = ad.after(op, box.get("ctx"), status, details, events)
-            lines.append(line)
             if line is not M.SKIP:
                 stats["modelled-ops"] = stats.get("modelled-ops", 0) + 1
                 stats["entry." + line[1]] = stats.get("entry." + line[1], 0) + 1
+            fol = ad.follow_after(op, box.get("fctx"), status, details, events)
+            if fol is not None:
+                # the same operation as M-Follow sees it: which components re-post it
+                stats["follow." + str(fol[0][1][0])] = stats.get("follow." + str(fol[0][1][0]), 0) + 1
+                if len(fol[1][0]) > 1:
+                    stats["follow.posted"] = stats.get("follow.posted", 0) + 1
+                line, mout = [Atom("both"), line, fol[0]], [Atom("both"), mout, fol[1]]
+            lines.append(line)
             name = op_name(op)
             stats["op." + name] = stats.get("op." + name, 0) + 1
             stats["status." + status.split(":")[0]] = stats.get("status." + status.split(":")[0], 0) + 1
